@@ -76,7 +76,7 @@ func familiesFor(tier string) (fams []alphabet, budgetS int) {
 			{Name: "wide", Subs: []int{0, 1, 2, 3, 4, 5, 6, 7},
 				Mine:  []string{"-", "pool", "1", "3", "5", "6", "7", "0+1", "0+5", "2+7", "3+4", "5+6"},
 				ForkK: []int{1, 2}, Fork: []string{"-", "1", "4"}, Ext: []string{"-", "0", "1"},
-				Hold: []string{"-", "0"}, Child: []string{"-", "5"}, Depth: 5},
+				Hold: []string{"-", "0"}, Child: []string{"-", "5"}, Depth: 4},
 			{Name: "reorg", Subs: []int{0, 1, 5},
 				Mine:  []string{"-", "pool", "1", "0+1"},
 				ForkK: []int{1}, Fork: []string{"-", "1"}, Ext: []string{"-", "1"}, Depth: 7},
@@ -92,7 +92,7 @@ func familiesFor(tier string) (fams []alphabet, budgetS int) {
 		{Name: "orphan", Subs: []int{0, 3},
 			Mine: []string{"-", "pool", "3+4"},
 			Hold: []string{"-", "0"}, Child: []string{"-", "5"}, Depth: 4},
-	}, 100
+	}, 85
 }
 
 // ---------------------------------------------------------------------------------------------
@@ -877,10 +877,6 @@ func (e *explorer) result() famResult {
 
 func main() {
 	if chainkit.Serve(serve) {
-		return
-	}
-	if len(os.Args) > 1 && os.Args[1] == "--bench" {
-		bench()
 		return
 	}
 	if len(os.Args) > 1 && os.Args[1] == "--cost" {
